@@ -8,7 +8,7 @@ Model: `Model/Bandit.lean`.  `smUpdate` is the Sherman–Morrison step of
 code's own association; `Agent` is the bookkeeping state (`outNumel` = parameter count of the
 current output layer, `numel`, `sigma_inv`, ghost history `hist` of the chosen gradient features
 since the last `init_params`) with the operations `update` (`get_action`), `learn`, `mutate`
-(`Mutations.mutation`: architecture change + hook), `clone`, `reload` (`save_checkpoint`/`load`).
+(`Mutations.mutation`: architecture change + hook), `clone`, `reload` (`save_checkpoint`/`load`; `loadFrom` = `load_checkpoint` into any agent).
 The gradient feature is an input: the network and autograd are not modelled (the harness computes
 it on the real network and checks the model's matrix against the real `sigma_inv`).
 
@@ -128,6 +128,13 @@ theorem C19_size_matches_output_layer (sem : Sem) (lamb : Rat) (n0 : Nat) (ops :
   · rw [← h.1]; exact h.2.1
   · rw [← h.1]; exact h.2.2
 
+/-- loading a checkpoint into *any* agent of the same class — whatever the size of its own output
+    layer and matrix — yields exactly the saved bookkeeping state (network rebuilt at the saved size,
+    hook, attributes restored), so the size clause and the inverse invariant survive a reload -/
+theorem C19_load_into_any_agent (target saved : Agent) (hs : target.sem = saved.sem) :
+    target.loadFrom saved = saved ∧ (saved.Sized → (target.loadFrom saved).Sized) := by
+  rw [Agent.loadFrom_eq target saved hs]; exact ⟨rfl, id⟩
+
 /-- the size clause rests on the mutation hook: an architecture change *without* `init_params`
     leaves a 2×2 matrix beside a 3-parameter layer, and `get_action` is then rejected -/
 theorem C19_hook_needed_witness :
@@ -152,6 +159,8 @@ def demo : Agent := (Agent.mk0 .code (1/2) 2).run
 example : demo.numel = 3 ∧ demo.hist = [[1, 1, 0], [0, 0, 2]] ∧ demo.checkInverse = true ∧
     isSymm demo.sigmaInv = true ∧ demo.sigmaInv = [[3/8, -1/8, 0], [-1/8, 3/8, 0], [0, 0, 1/6]] := by
   decide +kernel
+/-- a 2-parameter agent loads the checkpoint of a 3-parameter one -/
+example : ((Agent.mk0 .code (1/2) 2).update [1, 1]).loadFrom demo = demo := by decide +kernel
 /-- a feature of the wrong length is rejected and changes nothing -/
 example : (Agent.mk0 .paper 1 2).update [1, 2, 3] = Agent.mk0 .paper 1 2 := by decide +kernel
 
